@@ -43,4 +43,41 @@ CHECKS = {
              "fan-out with the one-line rule of the statement. Exhaustive inside the alphabet, nothing beyond it.",
         note=_TB + "; session id 0 is outside the alphabet",
     ),
+    "C01": dict(
+        engine="E3 bounded-exhaustive inputs", level="exploration", design_ref="5/C01",
+        technique="bounded-exhaustive enumeration of field/length/suffix boundaries and all <=3-message datagrams against an independent encoder/decoder",
+        text="Complete enumeration of the boundary products of all header fields, all message types x return codes x "
+             "boundary payload lengths (to 64 KiB + 8) x suffixes, and every datagram of 0..3 messages from a menu of 6 "
+             "with 4 tails through the real datagram_received; build() is compared byte-for-byte with an independent "
+             "encoder. Exhaustive over the stated finite alphabet; values between boundaries are not covered.",
+        note=_TB,
+    ),
+    "C08": dict(
+        engine="E4 live-object BFS", level="model_checking", design_ref="5/C08",
+        technique="exhaustive walk of the complete 2x65535-state cycle of the real outgoing table with probe-and-rollback at every state; BFS over all send interleavings of 3 destinations around the wrap",
+        text="The complete 2 x 65535 cycle of one destination is walked with real send_sd calls; in every one of those "
+             "states a multicast send and an empty send are executed and rolled back (non-interference, empty send "
+             "consumes nothing); the joint state space of three destinations x <=6 sends each around the wrap is explored "
+             "in every order; the notification path is run across the wrap. Ids and flags are decoded from the bytes "
+             "given to the transport by an independent decoder.",
+        note=_TB + "; single-threaded (the lock is uncontended)",
+    ),
+    "C16": dict(
+        engine="E3 bounded-exhaustive inputs", level="exploration", design_ref="5/C16",
+        technique="full product of header fields x channel through the real receive path against the statement's decision table",
+        text="Every combination of service{own,other} x interface version{own,other} x method{returns bytes, returns None, "
+             "rejects, unknown} x all 10 message types x all 11 return codes x client/session ids x payloads x "
+             "{unicast,multicast} is delivered through SimpleService.datagram_received; replies are decoded by an "
+             "independent decoder and compared with the decision table (first failing check decides).",
+        note=_TB,
+    ),
+    "C19": dict(
+        engine="E3 bounded-exhaustive inputs", level="exploration", design_ref="5/C19",
+        technique="exhaustive pairs over {2 concrete, wildcard, wildcard-1} per field against an independent field-wise matcher and the algebraic laws",
+        text="All 16384 ordered pairs of descriptions over a per-field domain of two concrete values, the wildcard and "
+             "wildcard-1, for every matching function, the find/offer duality, monotonicity, conversions and eventgroup "
+             "specialisation; the code only compares for equality with each other and the wildcard constants, so the "
+             "domain is representative.",
+        note="trusted: the independent matcher in pvmc/props/c19.py (8 lines)",
+    ),
 }
